@@ -1,5 +1,6 @@
 """C03 — every route to a spike waveform yields the same zero-padded raw window (DESIGN.md §5 C03)."""
 import itertools
+from fractions import Fraction
 import numpy as np
 from . import common as C
 from . import dataset as D
@@ -15,7 +16,10 @@ RULE = ('recordings of length 1..L (incl. shorter than the window) x 1..4 channe
         'arrays and as Python lists; unit factors 1, 2, 1.0, 0.5, 2.5; store queries in any order; '
         'TemplateModel.get_waveforms on generated datasets. non-trivial = at least one spike whose window '
         'crosses an edge or a chunk boundary, or >= 2 spikes')
-ASSUMPTIONS = ['.npy byte layout and np.load are transport', 'factor multiplication is exact on the generated values']
+ASSUMPTIONS = ['.npy byte layout and np.load are transport', 'factor multiplication is exact on the generated values',
+               'subset store (op model_store): the spike selection (random, C17) and the per-template channel order '
+               '(get_template().channel_ids, C05) are observed on the real model and given to the Lean model of '
+               'save_spikes_subset_waveforms; stores holding fewer than 2 spikes are skipped (see report)']
 
 
 def _A(dur, nch, dtype, bias=0):
@@ -67,14 +71,19 @@ def impl(case):
             m = D.load(D.write_dataset(d, case['spec']))
             try:
                 np.random.seed(case.get('rs', 0))
-                m.save_spikes_subset_waveforms(max_n_spikes_per_template=case['nst'], max_n_channels=case['nc'])
+                m.save_spikes_subset_waveforms(max_n_spikes_per_template=case['nst'], max_n_channels=case['nc'],
+                                               sample2unit=case.get('factor', 1.))
                 sw = m.spike_waveforms
                 if sw is None or np.ndim(sw.spike_ids) == 0 or len(sw.spike_ids) < 2:
                     return dict(skip=True)
                 out = m.get_waveforms(np.array(case['spike_ids'], dtype=np.int64), list(case['ch']))
-                res = dict(vals=np.asarray(out).astype(np.int64).tolist(), shape=list(out.shape),
+                used = sorted(int(t) for t in np.unique(m.spike_templates))
+                res = dict(vals=np.asarray(out, dtype=np.float64).tolist(), shape=list(out.shape),
                            store_ids=[int(x) for x in sw.spike_ids],
-                           store_channels=np.asarray(sw.spike_channels).astype(np.int64).tolist())
+                           store_channels=np.asarray(sw.spike_channels).astype(np.int64).tolist(),
+                           orders={str(t): [int(c) for c in m.get_template(t).channel_ids] for t in used},
+                           closest=int(m.n_closest_channels), n_templates=int(m.n_templates),
+                           ivs=[[int(a), int(b)] for a, b in m.traces.iter_chunks()])
             finally:
                 m.close()
         return res
@@ -127,7 +136,8 @@ def impl(case):
                            waveforms=arr)
                 out = T.get_spike_waveforms(np.array(case['query'], dtype=np.int64), case['chq'],
                                             spike_waveforms=st, n_samples_waveforms=n)
-                res = dict(vals=out.tolist(), shape=list(out.shape))
+                res = dict(vals=out.tolist(), shape=list(out.shape), ivs=res['ivs'], dtype=str(out.dtype),
+                           args_changed=res['args_changed'])
             return res
         finally:
             del traces
@@ -141,9 +151,37 @@ def _spec_raw(case):
     return raw
 
 
+def _frac(x):
+    f = Fraction(x)
+    return f.numerator if f.denominator == 1 else [f.numerator, f.denominator]
+
+
+def _cells(arr3):
+    """driver array of rationals (spikes x rows x channels) -> nested floats; the innermost lists are rows of
+    cells, a cell being an int or a [num, den] pair"""
+    return [[[float(Fraction(c[0], c[1])) if isinstance(c, list) else float(c) for c in row] for row in w]
+            for w in arr3]
+
+
 def model_query(case, impl_res):
     op = case['op']
-    if op in ('model', 'model_store'):
+    if op == 'model_store':
+        spec = case['spec']
+        raw = _spec_raw(case)
+        cm = spec['channel_map']
+        ok = impl_res.get('ok') or {}
+        if ok.get('skip') or 'ok' not in impl_res:
+            return dict(p=PID, op='extract', dur=raw.shape[0], nch=raw.shape[1], n=len(spec['templates'][0]),
+                        spikes=[spec['spike_samples'][i] for i in case['spike_ids']],
+                        ch=[cm[c] if c != -1 else -1 for c in case['ch']])
+        nt = ok['n_templates']
+        # channels are renamed by the (injective) channel map: the Lean recording is the raw file
+        orders = [[cm[c] for c in ok['orders'].get(str(t), [])] for t in range(nt)]
+        return dict(p=PID, op='subset', dur=raw.shape[0], nch=raw.shape[1], n=len(spec['templates'][0]),
+                    spike_samples=spec['spike_samples'], spike_templates=spec['spike_templates'], orders=orders,
+                    sel=ok['store_ids'], max_n=case['nc'], closest=ok['closest'], query=case['spike_ids'],
+                    chq=[cm[c] for c in case['ch']], ivs=ok['ivs'], factor=_frac(case.get('factor', 1.)))
+    if op == 'model':
         spec = case['spec']
         raw = _spec_raw(case)
         cm = spec['channel_map']
@@ -153,95 +191,102 @@ def model_query(case, impl_res):
     q = dict(p=PID, op=op, dur=case['dur'], nch=case['nch'], n=case['n'])
     if op == 'extract':
         q.update(spikes=case['spikes'], ch=case['ch'])
-    elif op == 'export':
-        ivs = impl_res['ok']['ivs'] if 'ok' in impl_res else [[0, case['dur']]]
-        q.update(spikes=case['spikes'], chans=case['chans'], nloc=case['nloc'], ivs=ivs)
+        return q
+    ivs = impl_res['ok']['ivs'] if 'ok' in impl_res else [[0, case['dur']]]
+    q.update(nloc=case['nloc'], ivs=ivs, factor=_frac(case['factor']), bias=case.get('bias', 0))
+    if op == 'export':
+        q.update(spikes=case['spikes'], chans=case['chans'])
     else:
         q.update(ids=case['ids'], samples=case['spikes'], chans=case['chans'], query=case['query'], chq=case['chq'])
     return q
 
 
 def oracle(case):
+    """independent Python rendering of the UNSCALED zero-padded window (direct-extraction routes); the routes that
+    multiply by the unit factor are judged against the Lean specification only (the driver multiplies, exactly)"""
     op = case['op']
-    if op in ('model', 'model_store'):
+    if op == 'model':
         spec = case['spec']
         raw = _spec_raw(case)[:, spec['channel_map']]
         n = len(spec['templates'][0])
         return [window(raw, spec['spike_samples'][i], n, case['ch']).tolist() for i in case['spike_ids']]
     ids = _A(case['dur'], case['nch'], 'int64')
-    n = case['n']
-    bias = case.get('bias', 0)
-    if bias and op in ('export', 'lookup'):
-        # values = id + bias on real cells, 0 on padding; times the factor in exact (float64) arithmetic
-        def val(w):
-            w = np.asarray(w, dtype=np.float64)
-            return np.where(w > 0, w + bias, 0.) * case['factor']
-        if op == 'export':
-            return [val(window(ids, s, n, ch)).tolist() for s, ch in zip(case['spikes'], case['chans'])]
-        out = []
-        for qid in case['query']:
-            p = case['ids'].index(qid)
-            ch = [c if c in case['chans'][p] else -1 for c in case['chq']]
-            out.append(val(window(ids, case['spikes'][p], n, ch)).tolist())
-        return out
-    if op == 'extract':
-        return [window(ids, s, n, case['ch']).tolist() for s in case['spikes']]
-    if op == 'export':
-        return [(window(ids, s, n, ch) * case['factor']).tolist() for s, ch in zip(case['spikes'], case['chans'])]
-    out = []
-    for qid in case['query']:
-        p = case['ids'].index(qid)
-        ch = [c if c in case['chans'][p] else -1 for c in case['chq']]
-        out.append((window(ids, case['spikes'][p], n, ch) * case['factor']).tolist())
-    return out
+    return [window(ids, s, case['n'], case['ch']).tolist() for s in case['spikes']]
 
 
 def judge(case, impl_res, ans):
     if 'err' in ans:
         return 'MACHINERY: driver error %s' % ans['err']
     m = ans['ok']
-    exp = oracle(case)
     op = case['op']
-    f = case.get('factor', 1) if op in ('export', 'lookup') else 1
+    if op == 'model_store':
+        return _judge_store(case, impl_res, m)
     if m['model'] is None:
         return 'MACHINERY: Lean model raises on an in-domain case'
-    if m['model'] != m['spec']:
+    if m.get('tile', True) and m['model'] != m['spec']:
         return 'MACHINERY: Lean model differs from its spec (contradicts the theorem)'
-    if not case.get('bias') and (np.array(m['spec']) * f).tolist() != np.array(exp).tolist() and len(exp):
-        return 'MACHINERY: Lean spec differs from the python oracle'
+    if op in ('extract', 'model'):
+        exp = oracle(case)
+        if m['spec'] != exp and len(exp):
+            return 'MACHINERY: Lean spec differs from the python oracle'
+    else:
+        exp = _cells(m['spec'])
     if 'raised' in impl_res:
         return 'SPEC: real code raised %s (%s) at %s on an in-domain input' % (
             impl_res['raised'], impl_res['msg'], impl_res['where'])
     ok = impl_res['ok']
-    if op == 'model_store':
-        if ok.get('skip'):
-            return None
-        got = np.array(ok['vals'])
-        e = np.array(exp)
-        if got.shape != e.shape:
-            return 'SPEC: get_waveforms (store present) returned shape %s' % (list(got.shape),)
-        stored = {sid: row for sid, row in zip(ok['store_ids'], ok['store_channels'])}
-        if all(q in stored for q in case['spike_ids']):
-            # store route: claimed on the channels the store holds for that spike
-            for i, q in enumerate(case['spike_ids']):
-                for j, c in enumerate(case['ch']):
-                    if c in stored[q] and not np.array_equal(got[i, :, j], e[i, :, j]):
-                        return 'SPEC: store lookup differs from the raw window (spike %d, channel %d)' % (q, c)
-            return None
-        if not np.array_equal(got, e):      # some spike is not in the store: raw data must be used
-            return 'SPEC: get_waveforms for a spike outside the subset store differs from the raw window'
-        return None
     if op == 'export':
         if ok['shape'] != [len(case['spikes']), case['n'], case['nloc']]:
             return 'SPEC: exported file loads with shape %s' % ok['shape']
         if ok['dtype'] != 'float64':
             return 'CORR: exported dtype %s' % ok['dtype']
     if np.array(ok['vals'], dtype=np.float64).tolist() != np.array(exp, dtype=np.float64).tolist():
-        return 'SPEC: %s route differs from the zero-padded raw window' % op
+        return 'SPEC: %s route differs from the zero-padded raw window%s' % (
+            op, ' times the unit factor' if op in ('export', 'lookup') else '')
     if ok.get('args_changed'):
         return 'SPEC: %s modified the spike / channel arrays passed by the caller' % op
     if op == 'extract' and ok['dtype'] != case['dtype']:
         return 'CORR: extract_waveforms dtype %s' % ok['dtype']
+    if op == 'lookup' and ok['dtype'] != 'float64':
+        return 'CORR: get_spike_waveforms dtype %s' % ok['dtype']
+    return None
+
+
+def _judge_store(case, impl_res, m):
+    """TemplateModel: save_spikes_subset_waveforms -> get_waveforms against the Lean model of the same"""
+    if 'raised' in impl_res:
+        return 'SPEC: real code raised %s (%s) at %s on an in-domain input' % (
+            impl_res['raised'], impl_res['msg'], impl_res['where'])
+    ok = impl_res['ok']
+    if ok.get('skip'):
+        return None
+    sel = ok['store_ids']
+    in_hyp = m['tile'] and all(a < b for a, b in zip(sel, sel[1:]))
+    if in_hyp and not m['loads']:
+        return 'MACHINERY: the Lean subset files do not load (contradicts subset_loads)'
+    if in_hyp and m['model'] != m['spec']:
+        return 'MACHINERY: Lean model differs from its spec (contradicts subset_store_eq_raw / getWaveforms_unstored)'
+    cm = case['spec']['channel_map']
+    real_rows = [[cm[c] if c != -1 else -1 for c in row] for row in ok['store_channels']]
+    if real_rows != m['store_channels']:
+        return 'SPEC: the subset store does not hold the best channels of each spike\'s template (%s, model %s)' % (
+            real_rows, m['store_channels'])
+    got = np.array(ok['vals'], dtype=np.float64)
+    spec = np.array(_cells(m['spec']), dtype=np.float64)
+    if got.shape != spec.shape:
+        return 'SPEC: get_waveforms (store present) returned shape %s' % (list(got.shape),)
+    stored = {sid: row for sid, row in zip(sel, ok['store_channels'])}
+    if m['all_stored']:
+        # store route: claimed on the channels the store holds for that spike
+        for i, q in enumerate(case['spike_ids']):
+            for j, c in enumerate(case['ch']):
+                if c in stored[q] and not np.array_equal(got[i, :, j], spec[i, :, j]):
+                    return 'SPEC: store lookup differs from the unit factor times the raw window (spike %d, channel %d)' % (q, c)
+    elif not np.array_equal(got, spec):      # some spike is not in the store: raw data must be used
+        return 'SPEC: get_waveforms for a spike outside the subset store differs from the raw window'
+    model = np.array(_cells(m['model']), dtype=np.float64)
+    if not np.array_equal(got, model):
+        return 'CORR: get_waveforms differs from the Lean model on a channel the store does not hold'
     return None
 
 
@@ -418,6 +463,7 @@ def gen(tier, rng):
                    ch=rng.sample(range(nc), rng.randrange(1, nc + 1)) + ([-1] if rng.random() < .3 else []),
                    chkind=rng.pick(['array', 'list']))
         if ns >= 4:
-            yield dict(p=PID, op='model_store', spec=spec, nst=rng.randrange(1, 3), nc=nc, rs=rng.randrange(1000),
+            yield dict(p=PID, op='model_store', spec=spec, nst=rng.randrange(1, 3), nc=rng.pick([nc, nc, 0, 1, 14]),
+                       rs=rng.randrange(1000), factor=rng.pick([1., 1., 2., 0.5, 2]),
                        spike_ids=sorted(rng.sample(range(ns), rng.randrange(1, 4))),
                        ch=rng.sample(range(nc), rng.randrange(1, nc + 1)))
